@@ -15,6 +15,7 @@ the same stream. `C11_owner_sends_queue` (Proofs/Glue.lean) is the session-level
 delay changes: whatever `register_local_inputs` hands to the remote endpoints is the owners' own
 queue content, frame after frame.
 -/
+import GgrsModel.Model.Inventory
 import GgrsModel.Proofs.Queue
 import GgrsModel.Proofs.DelayStep
 
